@@ -569,6 +569,39 @@ void probe_rep_io(const char *rep) {
 """)
 
 
+_s("prefixes", r"""
+        std::printf("prefixes %d %d %lld %.17g %.17g [%s] [%s] [%s] [%s]\n", kilo(seconds)(2).in(seconds), int(milli(seconds)(3000.0).in(seconds)),
+                    static_cast<long long>(kibi(minutes)(std::int64_t{1}).in(seconds)), micro(seconds)(2.5).in(nano(seconds)), giga(seconds)(1.0).in(mega(seconds)),
+                    unit_label(kilo(seconds)), unit_label(kibi(minutes)), unit_label(nano(hours)), unit_label(mebi(seconds) / micro(minutes)));
+""")
+
+_s("pi_magnitudes", r"""
+        constexpr auto PI = Magnitude<Pi>{};
+        constexpr auto half_turns = radians * PI;
+        std::printf("pi_magnitudes %.17g %.17g %.17g [%s] [%s] %d %d\n", get_value<double>(PI), half_turns(2.0).in(radians), get_value<double>(PI * PI / mag<4>()),
+                    unit_label(half_turns), mag_label(PI / mag<2>()), int(is_rational(PI)), int(is_integer(PI)));
+        std::printf("pi_magnitudes_f %.9g %.9g\n", double(get_value<float>(PI)), double(half_turns(0.5f).in(radians)));
+""")
+
+_s("symbols_compound", r"""
+        using symbols::s;
+        using symbols::min;
+        using symbols::h;
+        using symbols::rad;
+        constexpr auto v = 90.0 * rad / s;
+        constexpr auto a = 6.0 * min / (2.0 * h);
+        std::printf("symbols_compound %.17g %.17g [%s] [%s] %.17g\n", v.in(radians / seconds), a.in(minutes / hours), unit_label(decltype(v)::unit), unit_label(decltype(a)::unit),
+                    (3.0 * s * s).in(squared(seconds)));
+""")
+
+_s("constants_api", r"""
+        constexpr auto K = make_constant(kilo(seconds) / squared(minutes) * mag<3>());
+        constexpr auto q = K * minutes(2.0);
+        constexpr auto inv = 6.0 / K;
+        std::printf("constants_api %.17g %.17g [%s] [%s] %d %.17g\n", q.in(kilo(seconds) / minutes), inv.in(squared(minutes) / kilo(seconds)), unit_label(K), unit_label(K * K),
+                    K.as<int>(seconds / squared(minutes)).in(seconds / squared(minutes)), K.in<double>(kilo(seconds) / squared(minutes)));
+""")
+
 def names():
     return sorted(SNIPPETS)
 
